@@ -120,6 +120,51 @@ func runSeeded(m seededMeta, prop string) seededResult {
 	return res
 }
 
+// runNeutral applies a behaviour-preserving patch and runs every claimed property's check.
+func runNeutral(id string) []string {
+	tmp, err := os.MkdirTemp("", "tiverif-neutral-")
+	if err != nil {
+		return []string{err.Error()}
+	}
+	defer os.RemoveAll(tmp)
+	tree := filepath.Join(tmp, "tree")
+	os.MkdirAll(tree, 0o755)
+	if err := copyTree(tree); err != nil {
+		return []string{err.Error()}
+	}
+	ap := exec.Command("patch", "-p1", "--no-backup-if-mismatch", "-s", "-i", filepath.Join(verifDir(), "neutral", id, "patch.diff"))
+	ap.Dir = tree
+	if out, err := ap.CombinedOutput(); err != nil {
+		return nil // written for an older tree: nothing to say
+		_ = out
+	}
+	var fired []string
+	var mu sync.Mutex
+	var wg sync.WaitGroup
+	sem := make(chan struct{}, 6)
+	for _, prop := range propertyIDs() {
+		wg.Add(1)
+		go func(prop string) {
+			defer wg.Done()
+			sem <- struct{}{}
+			defer func() { <-sem }()
+			cmd := exec.Command(os.Args[0], "check", "-property", prop, "-tier", "quick")
+			cmd.Env = append(os.Environ(), "VERIF_REPO="+tree, "VERIF_EVIDENCE_DIR="+filepath.Join(tmp, "ev-"+prop), "VERIF_NO_SELFTEST=1")
+			out, _ := cmd.CombinedOutput()
+			for _, line := range strings.Split(string(out), "\n") {
+				if strings.HasPrefix(line, "VIOLATED ") || strings.HasPrefix(line, "UNDECIDED ") || strings.HasPrefix(line, "ERROR ") {
+					mu.Lock()
+					fired = append(fired, prop+": "+line)
+					mu.Unlock()
+				}
+			}
+		}(prop)
+	}
+	wg.Wait()
+	sort.Strings(fired)
+	return fired
+}
+
 func runSeededFor(prop string) []seededResult {
 	metas, err := loadSeeded()
 	if err != nil {
@@ -222,6 +267,24 @@ func cmdSelftest(args []string) int {
 			if r.Detail != "" && r.Outcome != "fired" {
 				fmt.Println("     ", r.Detail)
 			}
+		}
+	}
+	// neutral variants: behaviour-preserving refactorings (written by sub-agents asked for a
+	// tidy-up commit, golden suite and differential runs unchanged): no check may report
+	// anything on them
+	if *prop == "" || *prop == "neutral" {
+		ents, _ := os.ReadDir(filepath.Join(verifDir(), "neutral"))
+		for _, e := range ents {
+			if !e.IsDir() {
+				continue
+			}
+			fired := runNeutral(e.Name())
+			mark := "ok"
+			if len(fired) > 0 {
+				mark = "FALSE-ALARM"
+				bad++
+			}
+			fmt.Printf("%-28s %s  %-8s %s %s\n", "neutral/"+e.Name(), "all", map[bool]string{true: "fired", false: "silent"}[len(fired) > 0], mark, strings.Join(fired, " ; "))
 		}
 	}
 	if bad > 0 {
